@@ -316,74 +316,82 @@ func c03Restamp(r *Run) {
 			fn := w.Fn("hsms", typ+"."+m)
 			r.Analysed(w.FnName(fn))
 			paths, ok := enumPaths(fn, 20)
-			if !ok || len(paths) != 1 {
-				r.Undecided(rule, typ+"."+m+" is straight-line", fn.Pos(), "%d paths", len(paths))
+			if !ok || len(paths) == 0 {
+				r.Undecided(rule, typ+"."+m+" paths", fn.Pos(), "%d paths", len(paths))
 				continue
 			}
-			p := paths[0]
-			// the returned object is a fresh allocation
-			ret := p.Rets()[0]
-			obj, fresh := ret.(*ssa.Alloc)
-			r.Check(fresh, rule, typ+"."+m+" returns a new object", fn.Pos(), "fresh allocation", "re-stamping must not modify or return the receiver, returns "+render(ret))
-			if !fresh {
-				continue
-			}
-			st := derefType(obj.Type()).Underlying().(*types.Struct)
-			hf := -1
-			for i := 0; i < st.NumFields(); i++ {
-				if st.Field(i).Name() == "header" {
-					hf = i
-				}
-			}
-			e := newBitEval(p)
-			e.run()
-			mem := e.mem[memKey{obj, hf}]
-			if mem == nil || len(e.bad) > 0 {
-				r.Undecided(rule, typ+"."+m+" header of the new object", fn.Pos(), "header writes could not be followed (%s)", strings.Join(e.bad, "; "))
-				continue
-			}
-			recv := "$" + fn.Params[0].Name() + ".header"
-			arg := fn.Params[1]
-			for i := 0; i < 10; i++ {
-				want := atomBV(fmt.Sprintf("%s[%d]", recv, i), 8)
-				what := "unchanged"
-				switch {
-				case m == "WithSessionID" && i < 2:
-					want = byteOf(atomBV("$"+arg.Name(), 16), 1-i)
-					what = "session id, big-endian"
-				case m == "WithSystemBytes" && i >= 6:
-					want = atomBV(fmt.Sprintf("$%s[%d]", arg.Name(), i-6), 8)
-					what = "system byte"
-				}
-				r.Check(bitsEqual(mem[i], want), rule, fmt.Sprintf("%s.%s header byte %d (%s)", typ, m, i, what), fn.Pos(), want.String(), "must be "+want.String()+", is "+mem[i].String())
-			}
-			// body / dec / replyExpected shared with the receiver
-			shared := map[string]bool{}
-			wholeCopy := false
-			for _, in := range p.Instrs() {
-				s, ok := in.(*ssa.Store)
-				if !ok {
+			for _, p := range paths {
+				if _, isRet := p.Exit.(*ssa.Return); !isRet {
 					continue
 				}
-				if s.Addr == ssa.Value(obj) {
-					if ld, ok := s.Val.(*ssa.UnOp); ok && ld.Op == token.MUL && ld.X == ssa.Value(fn.Params[0]) {
-						wholeCopy = true
+				m := m
+				if len(paths) > 1 {
+					m = m + " [" + shortCond(p) + "]"
+				}
+				// the returned object is a fresh allocation
+				ret := p.Rets()[0]
+				obj, fresh := ret.(*ssa.Alloc)
+				r.Check(fresh, rule, typ+"."+m+" returns a new object", fn.Pos(), "fresh allocation", "re-stamping must not modify or return the receiver, returns "+render(ret))
+				if !fresh {
+					continue
+				}
+				st := derefType(obj.Type()).Underlying().(*types.Struct)
+				hf := -1
+				for i := 0; i < st.NumFields(); i++ {
+					if st.Field(i).Name() == "header" {
+						hf = i
 					}
 				}
-				if fa, ok := s.Addr.(*ssa.FieldAddr); ok && fa.X == ssa.Value(obj) {
-					if ld, ok := s.Val.(*ssa.UnOp); ok && ld.Op == token.MUL {
-						if fb, ok := ld.X.(*ssa.FieldAddr); ok && fb.X == ssa.Value(fn.Params[0]) && fb.Field == fa.Field {
-							shared[fieldOf(fa).Name()] = true
+				e := newBitEval(p)
+				e.run()
+				mem := e.mem[memKey{obj, hf}]
+				if mem == nil || len(e.bad) > 0 {
+					r.Undecided(rule, typ+"."+m+" header of the new object", fn.Pos(), "header writes could not be followed (%s)", strings.Join(e.bad, "; "))
+					continue
+				}
+				recv := "$" + fn.Params[0].Name() + ".header"
+				arg := fn.Params[1]
+				for i := 0; i < 10; i++ {
+					want := atomBV(fmt.Sprintf("%s[%d]", recv, i), 8)
+					what := "unchanged"
+					switch {
+					case strings.HasPrefix(m, "WithSessionID") && i < 2:
+						want = byteOf(atomBV("$"+arg.Name(), 16), 1-i)
+						what = "session id, big-endian"
+					case strings.HasPrefix(m, "WithSystemBytes") && i >= 6:
+						want = atomBV(fmt.Sprintf("$%s[%d]", arg.Name(), i-6), 8)
+						what = "system byte"
+					}
+					r.Check(bitsEqual(mem[i], want), rule, fmt.Sprintf("%s.%s header byte %d (%s)", typ, m, i, what), fn.Pos(), want.String(), "must be "+want.String()+", is "+mem[i].String())
+				}
+				// body / dec / replyExpected shared with the receiver
+				shared := map[string]bool{}
+				wholeCopy := false
+				for _, in := range p.Instrs() {
+					s, ok := in.(*ssa.Store)
+					if !ok {
+						continue
+					}
+					if s.Addr == ssa.Value(obj) {
+						if ld, ok := s.Val.(*ssa.UnOp); ok && ld.Op == token.MUL && ld.X == ssa.Value(fn.Params[0]) {
+							wholeCopy = true
+						}
+					}
+					if fa, ok := s.Addr.(*ssa.FieldAddr); ok && fa.X == ssa.Value(obj) {
+						if ld, ok := s.Val.(*ssa.UnOp); ok && ld.Op == token.MUL {
+							if fb, ok := ld.X.(*ssa.FieldAddr); ok && fb.X == ssa.Value(fn.Params[0]) && fb.Field == fa.Field {
+								shared[fieldOf(fa).Name()] = true
+							}
 						}
 					}
 				}
-			}
-			for i := 0; i < st.NumFields(); i++ {
-				f := st.Field(i).Name()
-				if f == "header" {
-					continue
+				for i := 0; i < st.NumFields(); i++ {
+					f := st.Field(i).Name()
+					if f == "header" {
+						continue
+					}
+					r.Check(wholeCopy || shared[f], rule, fmt.Sprintf("%s.%s shares %s with the receiver", typ, m, f), fn.Pos(), "copied from the receiver", "the new message must share the receiver's "+f+" (no re-encode, decode at most once)")
 				}
-				r.Check(wholeCopy || shared[f], rule, fmt.Sprintf("%s.%s shares %s with the receiver", typ, m, f), fn.Pos(), "copied from the receiver", "the new message must share the receiver's "+f+" (no re-encode, decode at most once)")
 			}
 		}
 	}
@@ -804,10 +812,22 @@ func c03Validation(r *Run) {
 		r.Undecided(rule, "NewDataMessageFromHeader paths", fh.Pos(), "too many")
 		return
 	}
+	nDeleg := 0
 	for _, p := range hp {
 		calls := p.Calls(isFn(fn))
 		if len(calls) == 0 {
+			// a path that hands out a message without going through NewDataMessage skips its
+			// stream / W-bit / item.Error() validation
+			if rets := p.Rets(); len(rets) == 2 && isNilConst(rets[1]) {
+				r.Fail(rule, "NewDataMessageFromHeader succeeds only through NewDataMessage ["+shortCond(p)+"]", p.Exit.Pos(), "a message is returned without the validation NewDataMessage performs (stream range, W-bit on an even function, body carrying a deferred error)")
+			}
 			continue
+		}
+		nDeleg++
+		// and what NewDataMessage says is what the caller gets
+		if rets := p.Rets(); len(rets) == 2 {
+			ex, ok := p.Resolve(rets[1]).(*ssa.Extract)
+			r.Check(ok && ex.Tuple == ssa.Value(calls[0].(*ssa.Call)) && ex.Index == 1, rule, "NewDataMessageFromHeader returns NewDataMessage's own error", p.Exit.Pos(), "error passed through", "the constructor's verdict must not be dropped")
 		}
 		pt, st := false, false
 		for _, f := range p.Conds {
@@ -826,6 +846,7 @@ func c03Validation(r *Run) {
 		}
 		r.Check(pt && st, rule, "NewDataMessageFromHeader builds only from a header with PType 0 and SType 0", calls[0].Pos(), "both tested", "a header that is not a SECS-II data header must be refused ["+shortCond(p)+"]")
 	}
+	r.Floor(rule, "NewDataMessageFromHeader paths that delegate to NewDataMessage", nDeleg, 1)
 }
 
 func boolInt(b bool) int {
